@@ -1,9 +1,24 @@
 package main
 
-import "go/ast"
+import (
+	"go/ast"
+	"path/filepath"
 
-// translateMore emits the remaining generated files (regexes, audits); filled
-// in as the model grows.
+	"verifharness/retrans"
+)
+
+// translateMore emits the remaining generated files (regexes, audits).
 func translateMore(repo, out string, files map[string]*ast.File) error {
+	rs, err := retrans.Extract(repo)
+	if err != nil {
+		return err
+	}
+	src, err := retrans.EmitCoq(rs)
+	if err != nil {
+		return err
+	}
+	if err := writeIfChanged(filepath.Join(out, "Regexes.v"), []byte(src)); err != nil {
+		return err
+	}
 	return nil
 }
